@@ -48,6 +48,9 @@ func vhEncodeCanonical(v interface{}) ([]byte, error) {
 	if !vStubOn("cjson") {
 		return cjson.EncodeCanonical(v)
 	}
+	if m, isMap := v.(map[string]interface{}); isMap {
+		return []byte(vhCanonMap(m)), nil
+	}
 	t, ok := vhContentTag(v)
 	if !ok {
 		return nil, errors.New("vh: cannot canonicalise")
